@@ -193,7 +193,13 @@ def compare_cycle_rev(ctx, t, tag, events='exact'):
             continue
         kinds = [l.split(' ')[2] for l in lines[a:b] if l.startswith('q ')]
         plus = any(l.startswith('q ') and '+' in l.split(' ')[3:] for l in lines[a:b])
-        lfp_class = 'fb' not in kinds and not plus          # c12rev_exact_if_closed applies
+        # value-controlled gate: `? <cond> e c0` whose condition is not an input token
+        def gated(l):
+            t = l.split(' ')[3:]
+            return any(x == '?' and k + 1 < len(t) and not re.fullmatch(r'i\d+', t[k + 1]) for k, x in enumerate(t))
+        plus = plus or any(l.startswith('q ') and gated(l) for l in lines[a:b])
+        # c12rev_exact_if_closed applies (program in the language of Model/Cycle.lean: no `+`, no gate)
+        lfp_class = 'fb' not in kinds and not plus
         fb_class = kinds and all(k == 'fb' for k in kinds)  # c13rev_reference_if_closed applies
         first = True
         for i in range(a, b):
